@@ -15,7 +15,7 @@ EXPLANATION = (
     "client sends STOP_SENDING(H3_REQUEST_CANCELLED) for responses and trailers. The arithmetic inside len() is trusted.")
 # every anchor of these rules lives in the h3 crate: thorough tier repeats them on the feature-less build
 EXTRA_CONFIGS = ["h3-plain"]
-RULES = "C10-a size accounting (A4/A6); C10-b comparisons and limit provenance (A5/A4/A2); C10-c defaults and local-limit flow (A4/A11); C10-d outcomes (A3); shared through a proxy: C13-d under C10-c"
+RULES = "C10-a size accounting (A4/A6); C10-b comparisons and limit provenance (A5/A4/A2); C10-c defaults and local-limit flow (A4/A11); C10-d outcomes (A3); shared through a proxy: C13-d under C10-c; C13-a (receive mapping) under C10-c"
 
 Q = "h3::qpack::"
 WRITE = "h3::stream::write"
